@@ -32,3 +32,27 @@ Theorem C11_step_frames : forall puf allow s x e rest s' z,
   parse_one puf allow s (x ++ z) = StOk e (rest ++ z) s'.
 Proof. exact parse_one_frames. Qed.
 Print Assumptions C11_step_frames.
+
+From Coq Require Import Lia.
+
+(* non-vacuity of C11_concat / C11_partition: a V5 packet, a V9 template packet and a V9 data
+   packet are accepted, clean and self-delimiting; fed as three calls, as two calls or as one
+   buffer they give the same three elements and the same final state *)
+Example C11_example :
+  let a := [x00; x05; x00; x01; x03; x00; x04; x00; x05; x00; x06; x07; x08; x09; x00; x01; x02; x03; x04; x05; x06; x07; x08; x09; x00; x01; x02; x03; x04; x05; x06; x07; x08; x09; x00; x01; x02; x03; x04; x05; x06; x07; x08; x09; x00; x01; x02; x03; x04; x05; x06; x07; x08; x09; x00; x01; x02; x03; x04; x05; x06; x07; x08; x09; x00; x01; x02; x03; x04; x05; x06; x07] in
+  let b := [x00; x09; x00; x01; x00; x00; x00; x01; x00; x00; x00; x02; x00; x00; x00; x03; x00; x00; x00; x04; x00; x00; x00; x0c; x01; x00; x00; x01; x00; x08; x00; x04] in
+  let c := [x00; x09; x00; x01; x00; x00; x00; x01; x00; x00; x00; x02; x00; x00; x00; x05; x00; x00; x00; x04; x01; x00; x00; x08; x01; xbb; x00; x35] in
+  let P := parse_bytes true (allow_list default_allowed) in
+  match P empty_state a with
+  | Some ra =>
+      match P (final_state empty_state ra) b with
+      | Some rb =>
+          match P (final_state (final_state empty_state ra) rb) c with
+          | Some rc => length (ra ++ rb ++ rc) = 3%nat
+                       /\ total_wire (map fst ra) = length a /\ total_wire (map fst rb) = length b
+                       /\ P empty_state (a ++ b ++ c) = Some (ra ++ rb ++ rc)
+                       /\ P (final_state empty_state ra) (b ++ c) = Some (rb ++ rc)
+          | None => False end
+      | None => False end
+  | None => False end.
+Proof. vm_compute. repeat split; reflexivity. Qed.
